@@ -349,6 +349,18 @@ Section ReputationProofs.
       destruct (pick _ _); cbn [fst snd]; congruence.
   Qed.
 
+  (* which (not old) view is asked does not matter for the credits: the next state depends on the head only *)
+  Lemma reputation_state_view_independent c cl st h v1 v2 :
+    N.ltb (u64_sub (u64 v1) (u64_of_int cl)) (h_view h) = false ->
+    N.ltb (u64_sub (u64 v2) (u64_of_int cl)) (h_view h) = false ->
+    snd (reputation' c cl st h v1) = snd (reputation' c cl st h v2).
+  Proof.
+    intros H1 H2. unfold reputation. destruct st as [prev m]. rewrite H1, H2.
+    destruct (h_qc h) as [voters|]; [|reflexivity].
+    destruct (rep_foreach' _ _ voters m) as [m' ws].
+    destruct (pick _ (i64_wrap (c_seed c + i64_of_u64 v1))), (pick _ (i64_wrap (c_seed c + i64_of_u64 v2))); reflexivity.
+  Qed.
+
   (* reputations are updated at most once per committed head *)
   Lemma reputation_once_per_head c cl st h v v' :
     let st1 := snd (reputation' c cl st h v) in
